@@ -123,11 +123,13 @@ func ScalePath64(path Path64, scale float64) Path64 {
 }
 
 func ScaleRectD(rec RectD, scale float64) Rect64 {
+	// quantise the bounds exactly like path coordinates (ScalePathDToPath64 rounds, it does not truncate)
+	pts := ScalePathDToPath64(PathD{{X: rec.left, Y: rec.top}, {X: rec.right, Y: rec.bottom}}, scale)
 	return Rect64{
-		left:   int64(rec.left * scale),
-		top:    int64(rec.top * scale),
-		right:  int64(rec.right * scale),
-		bottom: int64(rec.bottom * scale),
+		left:   pts[0].X,
+		top:    pts[0].Y,
+		right:  pts[1].X,
+		bottom: pts[1].Y,
 	}
 }
 
